@@ -109,6 +109,8 @@ def _node_slot_callbacks(f):
 
 
 def recorder(ctx, f, cfg):
+    global TRAFFIC
+    TRAFFIC = [v["name"] for v in (f.adts.get("core::base::resource::TrafficType") or {}).get("variants", [])]
     eff = Effects(f)
     cbs = _node_slot_callbacks(f)
     if not ctx.floor("C04.recorder", "ResourceNodeStatSlot callbacks (impl StatSlot in core::stat)", len(cbs), 3):
@@ -137,6 +139,7 @@ def recorder(ctx, f, cfg):
             if lst:
                 per_block[bb] = lst
         w = D.Walker(f, b, cls)
+        w.option_calls_as_disc = True
         paths = w.walk(0, lambda bb, env: None)
 
         def outcome(p, asg, per_block=per_block):
@@ -155,11 +158,11 @@ def recorder(ctx, f, cfg):
                 return "-"
             if sn != 1:
                 return None
-            r = D.rel_of(asg, "Inbound", "traffic")
-            if r is None:
+            inb = variant_is(asg, "traffic", TRAFFIC, "Inbound")
+            if inb is None:
                 return None
             seq = [(k, e, "node") for k, e in base]
-            if r == "=":
+            if inb:
                 seq += [(k, e, "inbound") for k, e in base]
             return ";".join(sorted("%s%s@%s" % (k, "(%s)" % e if e else "", t) for k, e, t in seq))
         n, ncon, mism = run_table(ctx, "C04.recorder", b.path, cfg, paths, outcome, expected)
